@@ -134,6 +134,19 @@ def run_r2c(case, stt):
     stt.label("kind_" + case["kind"])
 
 
+@st.composite
+def hist_case(draw):
+    return {"calls": [draw(r2c_case()) for _ in range(draw(st.integers(2, 4)))], "repeat_first": draw(st.booleans())}
+
+
+def run_hist(case, stt):
+    """several conversions in one process (different lengths, axes, dtypes; the first one again at the end)"""
+    calls = case["calls"] + ([case["calls"][0]] if case["repeat_first"] else [])
+    for c in calls:
+        run_r2c(c, stt)
+    stt.nt(case["repeat_first"])
+
+
 # -- long / wide arrays (numpy.fft reference) -----------------------------------------------------------------------
 
 
@@ -277,6 +290,8 @@ SUBS = [
         "N 0..130 of every residue mod 4, rank 1..3, every axis incl. negative, dtypes f2/f4/f8/i2/i8/u1/bool, noise/tone/impulse/constant "
         "data; definition, shape, dtype, real-part identity, linearity, tone mapping, complex refusal; non-trivial = N >= 3 and (axis != 0 or "
         "odd N or non-tone data)", quick=2500, thorough=50000, pieces_quick=4),
+    Sub("call_history", hist_case(), run_hist, "2..4 conversions of different arrays in one process, the first repeated at the end; non-trivial = "
+        "with the repeat", quick=300, thorough=5000, pieces_quick=3),
     Sub("long_wide_arrays", wide_case(), run_wide,
         "N in {4096..131074} x 1..16 columns along either axis (numpy.fft float64 reference), f4/f8/i2; every column checked; non-trivial = "
         "more than one column", quick=150, thorough=1500, pieces_quick=4),
